@@ -79,6 +79,7 @@ def tap(ctx, owner, attr, monitor):
                 state = monitor.pre(ctx, args, kw)
             except Exception as e:  # a monitor bug must never look like a repository defect
                 ctx.notes.append("monitor %s pre() raised %r" % (monitor.name, e))
+                ctx.bump("monitor_errors")
                 state = None
         finally:
             _DEPTH[0] -= 1
